@@ -30,7 +30,7 @@ RULE = ('every batch (ordered sequence) of 1..N manager operations over 11 conte
 BOUND = {
     'quick': 'N=3: n<=2 full product (fill: 2 gas constants x 4 counters x 3 amounts x 3 override settings; autofill: n=1 all '
              '6x3 simulation results x 4 counters x 3 amounts x 3 overrides x pending{0,1}; n=2 all 36 (first,rest) milligas pairs x 3 '
-             'storage diffs x 2 counters); n=3: all 1331 kind triples x 2 gas constants x 2 counters (fill) / x 6 milligas (autofill)',
+             'storage diffs); n=3: 11 first kinds x 25 pairs over 5 kinds x 2 gas constants x 2 counters (fill) / x 6 milligas (autofill)',
     'thorough': 'N=4: fill n<=3 full product incl. 4 override settings, n=4 all 14641 kind quadruples x 2 gas constants x 2 counters; '
                 'autofill n=1 full product incl. internal operation results, n=2 36 milligas pairs x 3 storage diffs x 2 counters x 3 '
                 'overrides, n=3 36 x 3, n=4 6 milligas values',
@@ -41,6 +41,8 @@ ASSUMPTIONS = [
     'fee depends on the signature only through its length: tz4 cases are judged with a 96-byte dummy BLsig; tz1..tz3 are really signed',
     'mc/ref/mgrops.py decodes the manager-operation layout correctly (hand-assembled selftest vectors; additionally every case '
     'cross-checks decoded fee/gas/counter against the group JSON)',
+    'the Jupyter help text that every RpcQuery renders in its constructor is stubbed (mc.simnode.disable_query_docstrings) for '
+    'speed; it never reaches a request',
     'user-chosen fees (autofill(fee=..)) and a user-chosen minimal_nanotez_per_gas_unit are outside the statement and not explored',
 ]
 LEVEL_TEXT = ('exhaustive over the stated alphabet of batches and configurations; the oracle is the statement itself applied to the '
@@ -61,6 +63,7 @@ STORAGE = [0, 1, 257]
 COUNTERS = [0, 127, 128, 2 ** 32]
 AMOUNTS = [0, 1, 2 ** 40]
 HARDGAS = [1040000, 5200000]
+QUICK_REST = ('tx_tz', 'tx_kt_param', 'reveal', 'origination', 'sr_add')  # quick tier: positions 2..3 of a triple
 _keys = {}
 
 
@@ -105,7 +108,8 @@ def drive(case, real_bls_sign=False):
     from pytezos.operation.group import OperationGroup
     from pytezos.rpc.shell import ShellQuery
     from mc.ref import mgrops
-    from mc.simnode import SimNode
+    from mc.simnode import SimNode, disable_query_docstrings
+    disable_query_docstrings()
 
     curve = case['curve']
     key = key_of(curve)
@@ -215,7 +219,7 @@ def fill_cases(curve, first, tier):
             if n <= full_n:
                 for hg, cnt, am, (go, so) in itertools.product(HARDGAS, COUNTERS, AMOUNTS, overrides):
                     yield base('fill', curve, kinds, hardgas=hg, counter=cnt, amount=am, gas_override=go, storage_override=so)
-            else:
+            elif tier == 'thorough' or all(t in QUICK_REST for t in rest):
                 for hg, cnt in itertools.product(HARDGAS, (0, 2 ** 32)):
                     yield base('fill', curve, kinds, hardgas=hg, counter=cnt)
 
@@ -237,13 +241,14 @@ def autofill_cases(curve, first, tier):
                         yield base('autofill', curve, kinds, milligas=[mg], internal=[[img, 1, True], [1, 0, False]])
             elif n == 2:
                 ovs = overrides if tier == 'thorough' else overrides[:1]
-                for mg0, mg1, sd, cnt, (go, so) in itertools.product(MILLIGAS, MILLIGAS, STORAGE, (127, 2 ** 32), ovs):
+                cnts = (127, 2 ** 32) if tier == 'thorough' else (2 ** 32,)
+                for mg0, mg1, sd, cnt, (go, so) in itertools.product(MILLIGAS, MILLIGAS, STORAGE, cnts, ovs):
                     yield base('autofill', curve, kinds, counter=cnt, milligas=[mg0, mg1], storage_diff=[sd],
                                gas_override=go, storage_override=so, allocated=(sd == 257))
             elif n == 3 and tier == 'thorough':
                 for mg0, mg1, sd in itertools.product(MILLIGAS, MILLIGAS, STORAGE):
                     yield base('autofill', curve, kinds, milligas=[mg0, mg1], storage_diff=[sd])
-            else:
+            elif tier == 'thorough' or all(t in QUICK_REST for t in rest):
                 for mg in MILLIGAS:
                     yield base('autofill', curve, kinds, milligas=[mg], counter=127)
 
